@@ -17,6 +17,7 @@ Expressions (tuples):
   ("call", name, (args...), uid)     result of an effectful / unknown call
   ("pure", name, (args...), vers)    result of a listed read-only accessor
 """
+import re
 from .facts import callee_name, fmt_place
 
 PURE_NAMES = {
@@ -75,6 +76,13 @@ class Path:
     def calls(self, pred=None):
         return [e for e in self.events if e.kind == "call" and (pred is None or pred(e))]
 
+    def cell(self, ptr, field):
+        """Final value of `(*ptr).field` on this path (None if never written / seeded)."""
+        v = self.env.get(("H", ptr, "." + field))
+        if v is None and ptr[0] == "arg":
+            v = self.env.get("(*_%d).%s" % (ptr[1], field))
+        return v
+
 
 class State:
     def __init__(self, body):
@@ -96,6 +104,25 @@ class State:
         s.events = list(self.events)
         s.blocks = list(self.blocks)
         return s
+
+
+def projstr(proj):
+    s = ""
+    for el in proj:
+        k = el["k"]
+        if k == "field":
+            s += ".%s" % (el["name"] if el.get("name") is not None else el["i"])
+        elif k == "downcast":
+            s += "@%s" % (el.get("name") if el.get("name") is not None else el["v"])
+        elif k == "deref":
+            s += ".*"
+        elif k == "index":
+            s += "[_%d]" % el["l"]
+        elif k == "cindex":
+            s += "[%s%d]" % ("-" if el["from_end"] else "", el["off"])
+        else:
+            s += ".?" + k
+    return s
 
 
 def pkey(place, upto=None):
@@ -120,6 +147,17 @@ class Sym:
     # ------------------------------------------------------------ evaluation
     def read_place(self, st, place):
         n = len(place["p"])
+        # memory reached through a pointer is keyed by the pointer's *value*, not by the local that happens to hold it:
+        # caller and (virtually inlined) callee, or two reborrows of `self`, see the same cells
+        di = next((i for i, el in enumerate(place["p"]) if el["k"] == "deref"), None)
+        if di is not None:
+            ptr = self.read_place(st, {"l": place["l"], "p": place["p"][:di]})
+            if ptr[0] != "ref":
+                rest = place["p"][di + 1:]
+                for k in range(len(rest), -1, -1):
+                    hk = ("H", ptr, projstr(rest[:k]))
+                    if hk in st.env:
+                        return self.apply_proj(st, st.env[hk], rest[k:])
         # longest prefix with a binding
         for k in range(n, -1, -1):
             key = pkey(place, k)
@@ -138,7 +176,9 @@ class Sym:
                 else:
                     e = ("deref", e)
             elif k == "field":
-                if e[0] == "agg" and e[1] in ("tuple", "adt", "closure", "coroutine") and el["i"] < len(e[4]):
+                if e[0] == "downcast" and e[2] in ("Ok", "Some") and e[1][0] == "pure" and e[1][1].startswith("int_try_from") and el["i"] == 0:
+                    e = ("cast", e[1][2][0], e[1][1].split(":", 1)[1])      # the checked value itself
+                elif e[0] == "agg" and e[1] in ("tuple", "adt", "closure", "coroutine") and el["i"] < len(e[4]):
                     e = e[4][el["i"]]
                 else:
                     e = ("field", e, el.get("name") if el.get("name") is not None else el["i"], el["ty"])
@@ -163,6 +203,8 @@ class Sym:
                 return ("fn", callee_name(o["fn"]))
             if "static" in o:
                 return ("const", "static " + o["static"], o["ty"])
+            if "lit" in o:
+                return ("const", o["lit"], o["ty"])
             return ("const", o["val"], o["ty"])
         if o["k"] in ("copy", "move"):
             return self.read_place(st, o["place"])
@@ -209,16 +251,27 @@ class Sym:
         return ("unk", "rv:" + k)
 
     def assign(self, st, place, e, rv=None):
+        di = next((i for i, el in enumerate(place["p"]) if el["k"] == "deref"), None)
+        if di is not None:
+            ptr = self.read_place(st, {"l": place["l"], "p": place["p"][:di]})
+            if ptr[0] != "ref":
+                sfx = projstr(place["p"][di + 1:])
+                for k in [k for k in st.env if isinstance(k, tuple) and k[0] == "H" and k[1] == ptr and k[2] != sfx and (k[2].startswith(sfx) or sfx.startswith(k[2]))]:
+                    del st.env[k]
+                st.env[("H", ptr, sfx)] = e
+                # drop a stale syntactic binding of the same cell (seeds)
+                st.env.pop(pkey(place), None)
+                return
         key = pkey(place)
         # kill longer keys
         pre = key
-        for k in [k for k in st.env if k != key and k.startswith(pre) and k[len(pre):len(pre) + 1] in (".", "[", ")", " ")]:
+        for k in [k for k in st.env if isinstance(k, str) and k != key and k.startswith(pre) and k[len(pre):len(pre) + 1] in (".", "[", ")", " ")]:
             del st.env[k]
         # keys that wrap this place syntactically, e.g. "(*_1).f" when assigning "_1"
         if not place["p"]:
             tag = "_%d" % place["l"]
             for k in list(st.env):
-                if k != key and _mentions(k, tag):
+                if isinstance(k, str) and k != key and _mentions(k, tag):
                     del st.env[k]
             st.pts.pop(place["l"], None)
             if rv is not None and rv["k"] == "ref":
@@ -239,14 +292,22 @@ class Sym:
             return
         ptr = self.read_place(st, pl)
         st.ver[ptr] = uid
+        for k in [k for k in st.env if isinstance(k, tuple) and k[0] == "H" and k[1] == ptr]:
+            del st.env[k]
         if not pl["p"] and pl["l"] in st.pts:
             tgt, bk = st.pts[pl["l"]]
             key = pkey(tgt)
             old = st.env.get(key)
             if old is None:
                 old = self.read_place(st, tgt)
-            for k in [k for k in st.env if k == key or (k.startswith(key) and k[len(key):len(key) + 1] in (".", "[", ")"))]:
+            for k in [k for k in st.env if isinstance(k, str) and (k == key or (k.startswith(key) and k[len(key):len(key) + 1] in (".", "[", ")")))]:
                 del st.env[k]
+            tdi = next((i for i, el in enumerate(tgt["p"]) if el["k"] == "deref"), None)
+            if tdi is not None:
+                tptr = self.read_place(st, {"l": tgt["l"], "p": tgt["p"][:tdi]})
+                sfx = projstr(tgt["p"][tdi + 1:])
+                for k in [k for k in st.env if isinstance(k, tuple) and k[0] == "H" and k[1] == tptr and (k[2].startswith(sfx) or sfx.startswith(k[2]))]:
+                    del st.env[k]
             if not any(el["k"] == "deref" for el in tgt["p"]):
                 st.env[key] = ("havoc", uid, key, old)
             else:
@@ -257,14 +318,20 @@ class Sym:
                         st.ver[base] = uid
 
     # ------------------------------------------------------------ driver
-    def paths(self, body, args=None, depth=0, st0=None, seed=None):
+    def paths(self, body, args=None, depth=0, st0=None, seed=None, seed_conds=None):
         out = []
         st = st0.clone() if st0 is not None else State(body)
         if st0 is None:
             for i in range(1, body.j["arg_count"] + 1):
                 st.env["_%d" % i] = args[i - 1] if args else ("arg", i)
             for k, v in (seed or {}).items():
-                st.env[k] = v
+                m = re.match(r"^\(\*_(\d+)\)((?:\.[A-Za-z0-9_]+)+)$", k) if isinstance(k, str) else None
+                if m and ("_%s" % m.group(1)) in st.env:
+                    st.env[("H", st.env["_%s" % m.group(1)], m.group(2))] = v
+                else:
+                    st.env[k] = v
+            for (e, c) in (seed_conds or ()):
+                st.conds.append((e, c, -1, body.path))
         self._walk(body, 0, st, out, depth)
         return out
 
@@ -356,13 +423,18 @@ class Sym:
                                 tgt = b
                         bb = tgt
                         continue
+                def ok_choice(c_):
+                    if not consistent(st.conds, e, c_):
+                        return False
+                    d = derived_decision(e, c_)
+                    return d is None or consistent(st.conds, d[0], d[1])
                 for v, b in t["targets"]:
-                    if consistent(st.conds, e, ("eq", v)):
+                    if ok_choice(("eq", v)):
                         choices.append((("eq", v), b))
                 oth = ("notin", tuple(tvals))
                 if e[0] == "discr" and len(tvals) == 1 and tvals[0] in (0, 1) and self._two_variants(e[2] if len(e) > 2 else None):
                     oth = ("eq", 1 - tvals[0])       # the only other variant of a two-variant enum
-                if consistent(st.conds, e, oth):
+                if ok_choice(oth):
                     choices.append((oth, t["otherwise"]))
                 # an `otherwise` that is an unreachable block is not a real choice
                 choices = [(c, b) for c, b in choices if not (body.blocks[b]["term"]["k"] == "unreachable" and not body.blocks[b]["stmts"])]
@@ -372,6 +444,9 @@ class Sym:
                 for i, (c, b) in enumerate(choices):
                     s2 = st if i == len(choices) - 1 else st.clone()
                     s2.conds.append((e, c, bb, fnpath))
+                    d = derived_decision(e, c)
+                    if d is not None:
+                        s2.conds.append((d[0], d[1], bb, fnpath))
                     self._walk(body, b, s2, out, depth)
                 return
             if k == "call":
@@ -388,27 +463,38 @@ class Sym:
                 callee_body = None
                 if fn and depth < self.inline_depth and self.inline(fn):
                     callee_body = self.facts.body(callee_name(fn)) or self.facts.body(fn["path"])
+                    if callee_body is not None and (callee_body.path == fnpath or (callee_body.path, 0) in st.visits and
+                                                    any(k[0] == callee_body.path for k in st.blocks[-200:] if False)):
+                        callee_body = None      # no self-recursion
                 if callee_body is not None and not callee_body.j.get("coroutine_kind"):
                     # virtual inlining: run the callee's paths in place
                     sub_out = []
-                    st.events.append(Event("call", bb, fnpath, name=name, fn=fn, args=args, result=None, term=t, extra="inlined"))
+                    st.events.append(Event("call", bb, fnpath, name=name, fn=fn, args=args, result=None, term=t, extra="inlined",
+                                           vers=tuple(st.ver.get(a, 0) for a in args), ncond=len(st.conds)))
                     cst = st.clone()
-                    cst.env = {}
+                    cst.env = {k: v for k, v in st.env.items() if isinstance(k, tuple)}     # memory cells are shared, locals are not
                     cst.pts = {}
                     for key in [k for k in cst.visits if k[0] == callee_body.path]:
                         del cst.visits[key]
                     for i in range(1, callee_body.j["arg_count"] + 1):
                         cst.env["_%d" % i] = args[i - 1] if i - 1 < len(args) else ("unk", "arg")
                     self._walk(callee_body, 0, cst, sub_out, depth + 1)
+                    call_idx = len(st.events) - 1
                     for p in sub_out:
                         if p.end != "return" or t["t"] is None:
                             out.append(p)
                             continue
                         s2 = st.clone()
+                        s2.env = {k: v for k, v in st.env.items() if not isinstance(k, tuple)}
+                        s2.env.update({k: v for k, v in p.env.items() if isinstance(k, tuple)})  # the callee's writes to memory
                         s2.ver = dict(p.state.ver)
                         s2.visits = dict(p.state.visits)
                         s2.conds = list(p.conds)
                         s2.events = list(p.events)
+                        # the call event itself carries the value this path of the callee returned
+                        ce = s2.events[call_idx]
+                        s2.events[call_idx] = Event("call", ce.bb, ce.fnpath, name=ce.name, fn=ce.fn, args=ce.args, result=p.ret, term=ce.term,
+                                                    extra="inlined", vers=ce.vers, ncond=ce.ncond)
                         s2.blocks = list(p.blocks)
                         for a_ in t["args"]:
                             self.havoc_arg(s2, a_, uid)
@@ -418,6 +504,17 @@ class Sym:
                 is_pure = short in self.pure and not any(
                     (a["k"] in ("copy", "move") and (a["place"].get("ty", "").startswith("&mut")))
                     for a in t["args"])
+                conv = int_conversion(fn, short, args) if fn else None
+                if conv is not None:
+                    # integer conversions are casts (From/Into), checked casts (TryFrom) or constants (size_of): never opaque
+                    st.events.append(Event("call", bb, fnpath, name=name, fn=fn, args=args, result=conv, term=t,
+                                           vers=tuple(st.ver.get(a, 0) for a in args), ncond=len(st.conds)))
+                    if t["t"] is None:
+                        self._finish(st, "diverge", None, out)
+                        return
+                    self.assign(st, t["dest"], conv)
+                    bb = t["t"]
+                    continue
                 folded = fold_pure(short, args) if is_pure else None
                 if folded is not None:
                     res = folded
@@ -464,6 +561,30 @@ class Sym:
             if v["name"] == vname:
                 return v["discr"] if v["discr"] is not None else i
         return None
+
+
+INT_TYPES = {"u8": 255, "u16": 65535, "u32": (1 << 32) - 1, "u64": (1 << 64) - 1, "usize": (1 << 64) - 1, "u128": (1 << 128) - 1,
+             "i8": 127, "i16": 32767, "i32": (1 << 31) - 1, "i64": (1 << 63) - 1, "isize": (1 << 63) - 1}
+INT_SIZES = {"u8": 1, "i8": 1, "u16": 2, "i16": 2, "u32": 4, "i32": 4, "u64": 8, "i64": 8, "usize": 8, "isize": 8, "u128": 16, "i128": 16, "bool": 1}
+
+
+def int_conversion(fn, short, args):
+    ga = fn.get("args") or []
+    if short in ("from", "into") and len(args) == 1 and len(ga) == 2 and all(g in INT_TYPES or g == "bool" for g in ga):
+        # <T as From<U>>::from(u) has generic args [T, U]; <U as Into<T>>::into(u) has [U, T]
+        target = ga[0] if short == "from" else ga[1]
+        return ("cast", args[0], target)
+    if short == "try_from" and len(args) == 1 and len(ga) == 2 and all(g in INT_TYPES for g in ga):
+        return ("pure", "int_try_from:" + ga[0], args, (0,))
+    if short == "try_into" and len(args) == 1 and len(ga) == 2 and all(g in INT_TYPES for g in ga):
+        return ("pure", "int_try_from:" + ga[1], args, (0,))
+    if short == "size_of" and len(ga) == 1 and ga[0] in INT_SIZES and not args:
+        return ("int", INT_SIZES[ga[0]])
+    if short == "ok" and len(args) == 1:
+        a = args[0]
+        if a[0] == "pure" and a[1].startswith("int_try_from:"):
+            return ("pure", "int_try_from_opt:" + a[1].split(":", 1)[1], a[2], (0,))
+    return None
 
 
 def fold_pure(short, args):
@@ -540,11 +661,37 @@ def fold_binop(op, a, b):
     return ("binop", base, a, b)
 
 
+def ckey(e):
+    """Decisions are compared on this key: a discriminant read is the same fact whatever the static type text says."""
+    if isinstance(e, tuple) and e and e[0] == "discr":
+        x = e[1]
+        while isinstance(x, tuple) and x and x[0] == "ref":
+            x = x[1]
+        return ("discr", x)
+    return e
+
+
+def derived_decision(e, c):
+    """is_some/is_none/is_ok/is_err(x) decided  =>  the same fact about discriminant(x)."""
+    if e[0] == "pure" and e[1].split("::")[-1] in ("is_some", "is_none", "is_ok", "is_err") and len(e[2]) == 1:
+        t = True if (c == ("notin", (0,)) or c == ("eq", 1)) else (False if c == ("eq", 0) else None)
+        if t is None:
+            return None
+        n = e[1].split("::")[-1]
+        x = e[2][0]
+        while isinstance(x, tuple) and x and x[0] == "ref":
+            x = x[1]
+        # Option: None=0 Some=1 ; Result: Ok=0 Err=1
+        v = {"is_some": 1 if t else 0, "is_none": 0 if t else 1, "is_ok": 0 if t else 1, "is_err": 1 if t else 0}[n]
+        return (("discr", x, None), ("eq", v))
+    return None
+
+
 def consistent(conds, e, c):
     """Is decision `c` on expression `e` compatible with the earlier decisions on the same expression?"""
+    k = ckey(e)
     for (e2, c2, _, _) in conds:
-        if e2 != e:
-            # negation pair: Not(x) vs x
+        if e2 != e and ckey(e2) != k:
             continue
         if c2[0] == "eq" and c[0] == "eq" and c2[1] != c[1]:
             return False
@@ -669,6 +816,10 @@ def interval_of(conds, x, lo=0, hi=None, upto_block=None):
     """Interval for expression x implied by the path decisions (comparisons of x with integer constants)."""
     iv = Interval(lo, hi)
     for (e, c, bb, fnp) in conds:
+        tf = try_from_decision(e, c)
+        if tf is not None and strip_cast_expr(tf[0]) == strip_cast_expr(x):
+            iv.meet_cmp("Le" if tf[2] else "Gt", tf[1], True)
+            continue
         if e[0] != "binop" or e[1] not in FLIP:
             continue
         op, a, b = e[1], e[2], e[3]
@@ -691,3 +842,46 @@ def interval_of(conds, x, lo=0, hi=None, upto_block=None):
                 continue
         iv.meet_cmp(op, k, truth)
     return iv
+
+
+def strip_cast_expr(e):
+    while isinstance(e, tuple) and e and e[0] == "cast":
+        e = e[1]
+    return e
+
+
+def try_from_decision(e, c):
+    """(value expr, max of the target type, fits?) if the decision is about a checked integer conversion:
+    discr(int_try_from:T(x)) == 0 (Ok) / 1 (Err), or is_ok()/is_err() of it."""
+    x = e
+    want_ok = None
+    if x[0] == "discr" and c[0] == "eq":
+        inner = x[1]
+        while inner[0] == "ref":
+            inner = inner[1]
+        if inner[0] == "pure" and inner[1].startswith("int_try_from:"):
+            return (inner[2][0], INT_TYPES[inner[1].split(":", 1)[1]], c[1] == 0)
+        if inner[0] == "pure" and inner[1].startswith("int_try_from_opt:"):
+            return (inner[2][0], INT_TYPES[inner[1].split(":", 1)[1]], c[1] == 1)
+    if x[0] == "pure" and x[1].split("::")[-1] in ("is_some", "is_none") and x[2]:
+        inner = x[2][0]
+        while inner[0] == "ref":
+            inner = inner[1]
+        if inner[0] == "pure" and inner[1].startswith("int_try_from_opt:"):
+            t = (c == ("notin", (0,))) or (c[0] == "eq" and c[1] == 1)
+            f_ = (c[0] == "eq" and c[1] == 0)
+            if t or f_:
+                some = t if x[1].split("::")[-1] == "is_some" else (not t)
+                return (inner[2][0], INT_TYPES[inner[1].split(":", 1)[1]], some)
+    if x[0] == "pure" and x[1].split("::")[-1] in ("is_ok", "is_err") and x[2]:
+        inner = x[2][0]
+        while inner[0] == "ref":
+            inner = inner[1]
+        if inner[0] == "pure" and inner[1].startswith("int_try_from:"):
+            t = (c == ("notin", (0,))) or (c[0] == "eq" and c[1] == 1)
+            f_ = (c[0] == "eq" and c[1] == 0)
+            if not (t or f_):
+                return None
+            ok = t if x[1].split("::")[-1] == "is_ok" else (not t)
+            return (inner[2][0], INT_TYPES[inner[1].split(":", 1)[1]], ok)
+    return None
